@@ -157,6 +157,7 @@ def main():
         plan = [(n, "deviation", 2, 60) for n in H]
         plan += [("pingpong", "preempt", 0, 60)]
     per = {}
+    conformed, n_conformance = set(), 0
     tot = dict(executions=0, states=0, transitions=0, deadlocks=0, horizon=0)
     samples = []
     with vlib.scratch("c39") as base:
@@ -168,6 +169,20 @@ def main():
             _, same = wsched.replay_twice(cfg, [], os.path.join(base, "rt"))
             if not same:
                 chk.machinery(f"harness {name}: default schedule does not replay identically")
+            # Conformance of the in-process server with the real `wild` process: the same schedules
+            # must produce the same decision records and events in both.
+            if name not in conformed:
+                conformed.add(name)
+                for prefix in ([], [1], [2], [0, 1], [1, 0, 1]):
+                    xs = wsched.run_execution(cfg, prefix, os.path.join(base, "cs"))
+                    xp = wsched.run_execution(dict(cfg, server=False), prefix,
+                                              os.path.join(base, "cp"))
+                    if xs.dlines_hash != xp.dlines_hash or \
+                            [e[:4] for e in xs.events] != [e[:4] for e in xp.events] or \
+                            (xs.rc == 0) != (xp.rc == 0):
+                        chk.machinery(f"harness {name}: server and subprocess executions of "
+                                      f"schedule {prefix} differ")
+                    n_conformance += 1
             oracle = make_oracle(cfg, (b0.rc, b0.out_sha))
             st = wsched.explore(cfg, bound, model, oracle, time_cap=time_cap,
                                 base=os.path.join(base, "x_" + name))
@@ -204,6 +219,7 @@ def main():
         "states": tot["states"], "transitions": tot["transitions"],
         "traces_validated_against_impl": tot["executions"],
         "executions": tot["executions"], "deadlocks": tot["deadlocks"],
+        "server_vs_subprocess_schedules_compared": n_conformance,
         "horizon_hits": tot["horizon"],
         "cost_models": "deviation: every non-default scheduling choice costs 1; preempt: only "
                        "switching away from a still-enabled task costs 1 (switches at task end "
